@@ -152,26 +152,9 @@ func (z *ZodMap[T, R]) MustParse(input any, ctx ...*core.ParseContext) R {
 
 // StrictParse validates input with compile-time type safety.
 func (z *ZodMap[T, R]) StrictParse(input T, ctx ...*core.ParseContext) (R, error) {
-	cv, ok := toConstraintValue[T, R](input)
-	if !ok {
-		var zero R
-		if len(ctx) == 0 {
-			ctx = []*core.ParseContext{core.NewParseContext()}
-		}
-		return zero, issues.CreateTypeConversionError(
-			fmt.Sprintf("%T", input), "map constraint type", any(input), ctx[0],
-		)
-	}
-
-	return engine.ParseComplexStrict[map[any]any, R](
-		cv,
-		&z.internals.ZodTypeInternals,
-		core.ZodTypeMap,
-		z.extractForEngine,
-		z.extractPtrForEngine,
-		z.validateForEngine,
-		ctx...,
-	)
+	// StrictParse must answer exactly what Parse answers: the statically typed input is a valid
+	// Parse input, so run the one pipeline.
+	return z.Parse(input, ctx...)
 }
 
 // MustStrictParse validates input with type safety and panics on error.
